@@ -383,6 +383,15 @@ theorem C06_find_position (tol : Rat) (htol : 0 ≤ tol) (n : Net) (hs : Sync n)
   simp only [treeWithin_eq tol htol] at this ⊢
   exact this
 
+/-- The corner the translation of `find_lanelet_by_position` showed (model repaired to the code): an empty point list is
+    answered `[]` BEFORE the tree is touched — also by a network object that holds no tree —, while any non-empty list on
+    such an object raises `AttributeError`. -/
+theorem C06_find_position_empty (within : List Pt → Pt → Bool) (n : Net) :
+    findByPosition within n [] = .ok [] ∧
+    (n.tree = none → ∀ p ps, findByPosition within n (p :: ps) = .error .attr) := by
+  refine ⟨rfl, fun h p ps => ?_⟩
+  simp [findByPosition, h]
+
 /-- What "within `tol`" means for the answer, between the two exact sets: every lanelet whose polygon CONTAINS the
     point is reported (whatever `tol ≥ 0`), and every reported lanelet has a polygon point within distance `tol` of the
     query point (squared: `d2 q p ≤ tol²`).  For `tol = 0` the two bounds coincide (`C06_withinTol_zero`). -/
